@@ -213,21 +213,41 @@ def logical_or(left, right):
     """Perform logical or, but in a smart way
     so that we only construct a logical or when we need to.
 
-    This implements the weaker notion of RE equivalence.
+    This implements the weaker notion of RE equivalence: nested
+    alternations are flattened (associativity), sorted (commutativity),
+    duplicate alternatives are dropped (idempotence) and symbol sets are
+    merged. Without this, the set of derivatives of an expression such
+    as 'a*a*' is infinite.
     """
-    if isinstance(left, SymbolSet) and isinstance(right, SymbolSet):
-        return SymbolSet(left.symbols | right.symbols)
+    symbols = IntegerSet()
+    options = []
+    for option in _alternatives(left) + _alternatives(right):
+        if isinstance(option, SymbolSet):
+            symbols = symbols | option.symbols
+        elif option not in options:
+            options.append(option)
 
-    if left == right:
-        return left
+    # Commutativity: keep the alternatives in one fixed order.
+    options.sort(key=str)
 
-    if left == NULL:
-        return right
+    if symbols:
+        options.insert(0, SymbolSet(symbols.ranges))
 
-    if right == NULL:
-        return left
+    if not options:
+        return NULL
 
-    return LogicalOr(left, right)
+    expr = options[0]
+    for option in options[1:]:
+        expr = LogicalOr(expr, option)
+    return expr
+
+
+def _alternatives(expr):
+    """Give the list of alternatives of a (nested) logical or."""
+    if isinstance(expr, LogicalOr):
+        return _alternatives(expr.lhs) + _alternatives(expr.rhs)
+    else:
+        return [expr]
 
 
 class LogicalOr(Regex):
